@@ -352,4 +352,275 @@ theorem orLoop_stop (cx : Ctx) (g : Nat) (acc : ERes) (st : St) (h : parseOrOp c
     orLoop cx (g + 1) acc st = (acc, st) := by
   simp only [orLoop, h]
 
+/-! ### the three levels -/
+
+section levels
+variable (cx : Ctx) (MOk : DefaultMatcher → Matcher → Prop)
+
+/-- `parse_basic_expr` on the printed form of a basic expression -/
+def PB (e : PExpr) : Prop := ∀ (f : Nat) (r T : List Char) (st : St), skipWs r = printExpr e ++ T → 4 * sz e ≤ f + 3 →
+  ∃ e', parseBasic cx f (st.withRest r) = some (some e', st.withRest T) ∧ dropSpans e' = dropSpans e
+
+/-- `parse_and_or_difference_expr` on the printed form of an and-level expression: after the printed text the loop is in the
+    state "accumulated = the expression, fuel reduced by one per operator" -/
+def PA (e : PExpr) : Prop := ∀ (F : Nat) (r T : List Char) (st : St), skipWs r = printExpr e ++ T → 4 * sz e ≤ F + 1 →
+  ∃ e', dropSpans e' = dropSpans e ∧ parseAndOr cx F (st.withRest r) = andLoop cx (F - 1 - nand e) (some e') (st.withRest T)
+
+/-- `parse_expr` on the printed form of an or-level expression -/
+def PE (e : PExpr) : Prop := ∀ (F : Nat) (r T : List Char) (st : St), skipWs r = printExpr e ++ T → NoAndOp T → 4 * sz e ≤ F →
+  ∃ e', dropSpans e' = dropSpans e ∧ parseExpr cx F (st.withRest r) = orLoop cx (F - 1 - nor e) (some e') (st.withRest T)
+
+theorem bm_of_pb (e : PExpr) (h : PB cx e) (g : Nat) (r T : List Char) (st : St) (hr : skipWs r = printExpr e ++ T)
+    (hf : 4 * sz e ≤ g + 2) : ∃ e', basicOrMissing cx g (st.withRest r) = (some e', st.withRest T) ∧ dropSpans e' = dropSpans e := by
+  have hpos := sz_pos e
+  cases g with
+  | zero => omega
+  | succ g' =>
+    obtain ⟨e', h1, h2⟩ := h g' r T st hr (by omega)
+    exact ⟨e', by simp only [basicOrMissing, h1], h2⟩
+
+theorem pa_of_pb (e : PExpr) (hn : nand e = 0) (h : PB cx e) : PA cx e := by
+  intro F r T st hr hf
+  have hpos := sz_pos e
+  cases F with
+  | zero => omega
+  | succ F' =>
+    obtain ⟨e', h1, h2⟩ := bm_of_pb cx e h F' r T st hr (by omega)
+    refine ⟨e', h2, ?_⟩
+    simp only [parseAndOr, h1, hn]
+    congr 1
+
+theorem pe_of_pa (e : PExpr) (hn : nor e = 0) (h : PA cx e) : PE cx e := by
+  intro F r T st hr hT hf
+  have hpos := sz_pos e
+  have hnl := nand_lt e
+  cases F with
+  | zero => omega
+  | succ F' =>
+    obtain ⟨e', h2, h1⟩ := h F' r T st hr (by omega)
+    refine ⟨e', h2, ?_⟩
+    have hstop : andLoop cx (F' - 1 - nand e) (some e') (st.withRest T) = (some e', st.withRest T) := by
+      have : F' - 1 - nand e = (F' - 2 - nand e) + 1 := by omega
+      rw [this]; exact andLoop_stop cx _ _ _ (hT cx st)
+    simp only [parseExpr, h1, hstop, hn]
+    congr 1
+
+theorem dropSpans_set (s s' : SetDef) (h : SetDef.dropSpan s' = SetDef.dropSpan s) : dropSpans (.set s') = dropSpans (.set s) := by
+  simp only [dropSpans, h]
+
+theorem parseSetDef_none_of_head (cx : Ctx) (st : St) (c : Char) (R : List Char) (hws : NonWs c)
+    (hc : c ≠ 'p' ∧ c ≠ 'd' ∧ c ≠ 'r' ∧ c ≠ 'k' ∧ c ≠ 'b' ∧ c ≠ 't' ∧ c ≠ 'a' ∧ c ≠ 'n') :
+    parseSetDef cx (st.withRest (c :: R)) = none := by
+  obtain ⟨h1, h2, h3, h4, h5, h6, h7, h8⟩ := hc
+  have hs : skipWs (c :: R) = c :: R := skipWs_cons_nonws c R hws
+  have e1 : ('p' == c) = false := by simp [Ne.symm h1]
+  have e2 : ('d' == c) = false := by simp [Ne.symm h2]
+  have e3 : ('r' == c) = false := by simp [Ne.symm h3]
+  have e4 : ('k' == c) = false := by simp [Ne.symm h4]
+  have e5 : ('b' == c) = false := by simp [Ne.symm h5]
+  have e6 : ('t' == c) = false := by simp [Ne.symm h6]
+  have e7 : ('a' == c) = false := by simp [Ne.symm h7]
+  have e8 : ('n' == c) = false := by simp [Ne.symm h8]
+  simp [parseSetDef, hs, tryUnary, unaryTable, lit, List.isPrefixOf, St.withRest, e1, e2, e3, e4, e5, e6, e7, e8]
+
+theorem parseSetDef_none_not (cx : Ctx) (st : St) (R : List Char) :
+    parseSetDef cx (st.withRest ('n' :: 'o' :: 't' :: ' ' :: R)) = none := by
+  have hs : skipWs ('n' :: 'o' :: 't' :: ' ' :: R) = 'n' :: 'o' :: 't' :: ' ' :: R := skipWs_cons_nonws _ _ ⟨by decide, by decide, by decide⟩
+  simp [parseSetDef, hs, tryUnary, unaryTable, lit, List.isPrefixOf, St.withRest]
+
+variable (hm : MatcherRT cx MOk)
+include hm
+
+theorem levels : ∀ e : PExpr, (wf MOk 0 e → PB cx e) ∧ (wf MOk 1 e → PA cx e) ∧ (wf MOk 2 e → PE cx e) := by
+  obtain ⟨_, _, _, _, _, _, _, _, _, _, _, l12, _⟩ := strlens
+  intro e
+  induction e with
+  | set s =>
+    have hb : wf MOk 0 (.set s) → PB cx (.set s) := by
+      intro hw f r T st hr hf
+      cases f with
+      | zero => simp [sz] at hf
+      | succ f' =>
+        obtain ⟨s', h1, h2⟩ := parseSetDef_printed cx MOk hm s T st hw
+        refine ⟨.set s', ?_, dropSpans_set s s' h2⟩
+        rw [printExpr_set] at hr
+        simp only [parseBasic, withRest_rest, withRest_withRest, hr, h1, Option.map_some]
+    exact ⟨hb, fun hw => pa_of_pb cx _ rfl (hb hw), fun hw => pe_of_pa cx _ rfl (pa_of_pb cx _ rfl (hb hw))⟩
+  | not op e ih =>
+    have hb : wf MOk 0 (.not op e) → PB cx (.not op e) := by
+      intro hw f r T st hr hf
+      have hpb : PB cx e := ih.1 hw
+      simp only [sz] at hf
+      cases f with
+      | zero => omega
+      | succ f' =>
+        rw [printExpr_not] at hr
+        cases op with
+        | literalNot =>
+          have hr' : skipWs r = 'n' :: 'o' :: 't' :: ' ' :: (printExpr e ++ T) := by rw [hr]; rfl
+          obtain ⟨e', h1, h2⟩ := bm_of_pb cx e hpb f' (printExpr e ++ T) T st (skipWs_printExpr e T) (by omega)
+          refine ⟨.not .literalNot e', ?_, by simp only [dropSpans, h2]⟩
+          simp only [parseBasic, withRest_rest, withRest_withRest, hr', parseSetDef_none_not]
+          simp [lit, List.isPrefixOf, l12, St.withRest]
+          have h1' := h1
+          simp only [St.withRest] at h1'
+          simp [h1']
+        | exclamation =>
+          have hr' : skipWs r = '!' :: ' ' :: (printExpr e ++ T) := by rw [hr]; rfl
+          obtain ⟨e', h1, h2⟩ := bm_of_pb cx e hpb f' (' ' :: (printExpr e ++ T)) T st
+            (by rw [skipWs_space]; exact skipWs_printExpr e T) (by omega)
+          refine ⟨.not .exclamation e', ?_, by simp only [dropSpans, h2]⟩
+          have hnone := parseSetDef_none_of_head cx st '!' (' ' :: (printExpr e ++ T)) ⟨by decide, by decide, by decide⟩
+            ⟨by decide, by decide, by decide, by decide, by decide, by decide, by decide, by decide⟩
+          simp only [parseBasic, withRest_rest, withRest_withRest, hr', hnone]
+          simp [lit, List.isPrefixOf, l12, St.withRest]
+          have h1' := h1
+          simp only [St.withRest] at h1'
+          simp [h1']
+    exact ⟨hb, fun hw => pa_of_pb cx _ rfl (hb hw), fun hw => pe_of_pa cx _ rfl (pa_of_pb cx _ rfl (hb hw))⟩
+  | parens e ih =>
+    have hb : wf MOk 0 (.parens e) → PB cx (.parens e) := by
+      intro hw f r T st hr hf
+      have hpe : PE cx e := ih.2.2 hw
+      simp only [sz] at hf
+      have hnl := nor_lt e
+      cases f with
+      | zero => omega
+      | succ f' =>
+        rw [printExpr_parens] at hr
+        have hr' : skipWs r = '(' :: (printExpr e ++ ')' :: T) := by rw [hr]; simp
+        obtain ⟨e', h2, h1⟩ := hpe f' (printExpr e ++ ')' :: T) (')' :: T) st (skipWs_printExpr e _) (noAndOp_close T) (by omega)
+        have hstop : orLoop cx (f' - 1 - nor e) (some e') (st.withRest (')' :: T)) = (some e', st.withRest (')' :: T)) := by
+          have : f' - 1 - nor e = (f' - 2 - nor e) + 1 := by omega
+          rw [this]; exact orLoop_stop cx _ _ _ (noOrOp_close T cx st)
+        have hclose : expectChar cx ')' .expectedCloseParen (st.withRest (')' :: T)) = st.withRest T :=
+          expectChar_hit cx ')' _ _ _ ⟨by decide, by decide, by decide⟩ rfl
+        refine ⟨.parens e', ?_, by simp only [dropSpans, h2]⟩
+        have hnone := parseSetDef_none_of_head cx st '(' (printExpr e ++ ')' :: T) ⟨by decide, by decide, by decide⟩
+          ⟨by decide, by decide, by decide, by decide, by decide, by decide, by decide, by decide⟩
+        simp only [parseBasic, withRest_rest, withRest_withRest, hr', hnone]
+        simp [lit, List.isPrefixOf, l12, St.withRest]
+        have h1' := h1
+        simp only [St.withRest] at h1' hstop hclose
+        simp [h1', hstop, hclose]
+    exact ⟨hb, fun hw => pa_of_pb cx _ rfl (hb hw), fun hw => pe_of_pa cx _ rfl (pa_of_pb cx _ rfl (hb hw))⟩
+  | inter op a b iha ihb =>
+    have ha' : wf MOk 1 (.inter op a b) → PA cx (.inter op a b) := by
+      intro hw F r T st hr hf
+      obtain ⟨_, hwa, hwb⟩ := hw
+      have hpa : PA cx a := iha.2.1 hwa
+      have hpb : PB cx b := ihb.1 hwb
+      simp only [sz] at hf
+      have hnl := nand_lt a
+      have hposb := sz_pos b
+      rw [printExpr_inter, List.append_assoc] at hr
+      obtain ⟨a', ha2, ha1⟩ := hpa F r (' ' :: (andText (.and op) ++ ' ' :: printExpr b) ++ T) st hr (by omega)
+      obtain ⟨R', hop, hR'⟩ := parseAndOp_printed cx (.and op) (printExpr b ++ T) st
+      obtain ⟨b', hb1, hb2⟩ := bm_of_pb cx b hpb (F - 2 - nand a) R' T st (by rw [hR']; exact skipWs_printExpr b T) (by omega)
+      refine ⟨.inter op a' b', by simp only [dropSpans, ha2, hb2], ?_⟩
+      rw [ha1]
+      have hF : F - 1 - nand a = (F - 2 - nand a) + 1 := by omega
+      have hT : (' ' :: (andText (.and op) ++ ' ' :: printExpr b) ++ T) = ' ' :: (andText (.and op) ++ ' ' :: (printExpr b ++ T)) := by simp
+      rw [hF, hT]
+      simp only [andLoop, hop, hb1, combineAnd, nand]
+      congr 1
+      omega
+    exact ⟨fun hw => absurd hw.1 (by omega), ha', fun hw => pe_of_pa cx _ rfl (ha' ⟨by omega, hw.2.1, hw.2.2⟩)⟩
+  | diff a b iha ihb =>
+    have ha' : wf MOk 1 (.diff a b) → PA cx (.diff a b) := by
+      intro hw F r T st hr hf
+      obtain ⟨_, hwa, hwb⟩ := hw
+      have hpa : PA cx a := iha.2.1 hwa
+      have hpb : PB cx b := ihb.1 hwb
+      simp only [sz] at hf
+      have hnl := nand_lt a
+      have hposb := sz_pos b
+      rw [printExpr_diff, List.append_assoc] at hr
+      obtain ⟨a', ha2, ha1⟩ := hpa F r (' ' :: (andText .diff ++ ' ' :: printExpr b) ++ T) st hr (by omega)
+      obtain ⟨R', hop, hR'⟩ := parseAndOp_printed cx .diff (printExpr b ++ T) st
+      obtain ⟨b', hb1, hb2⟩ := bm_of_pb cx b hpb (F - 2 - nand a) R' T st (by rw [hR']; exact skipWs_printExpr b T) (by omega)
+      refine ⟨.diff a' b', by simp only [dropSpans, ha2, hb2], ?_⟩
+      rw [ha1]
+      have hF : F - 1 - nand a = (F - 2 - nand a) + 1 := by omega
+      have hT : (' ' :: (andText .diff ++ ' ' :: printExpr b) ++ T) = ' ' :: (andText .diff ++ ' ' :: (printExpr b ++ T)) := by simp
+      rw [hF, hT]
+      simp only [andLoop, hop, hb1, combineAnd, nand]
+      congr 1
+      omega
+    exact ⟨fun hw => absurd hw.1 (by omega), ha', fun hw => pe_of_pa cx _ rfl (ha' ⟨by omega, hw.2.1, hw.2.2⟩)⟩
+  | union op a b iha ihb =>
+    have he' : wf MOk 2 (.union op a b) → PE cx (.union op a b) := by
+      intro hw F r T st hr hT hf
+      obtain ⟨_, hwa, hwb⟩ := hw
+      have hpe : PE cx a := iha.2.2 hwa
+      have hpa : PA cx b := ihb.2.1 hwb
+      simp only [sz] at hf
+      have hnl := nor_lt a
+      have hnb := nand_lt b
+      have hposb := sz_pos b
+      rw [printExpr_union, List.append_assoc] at hr
+      have hT' : (' ' :: (orText op ++ ' ' :: printExpr b) ++ T) = ' ' :: (orText op ++ ' ' :: (printExpr b ++ T)) := by simp
+      obtain ⟨a', ha2, ha1⟩ := hpe F r (' ' :: (orText op ++ ' ' :: printExpr b) ++ T) st hr
+        (by rw [hT']; exact noAndOp_or op _) (by omega)
+      obtain ⟨R', hop, hR'⟩ := parseOrOp_printed cx op (printExpr b ++ T) st
+      obtain ⟨b', hb2, hb1⟩ := hpa (F - 2 - nor a) R' T st (by rw [hR']; exact skipWs_printExpr b T) (by omega)
+      have hstop : andLoop cx (F - 2 - nor a - 1 - nand b) (some b') (st.withRest T) = (some b', st.withRest T) := by
+        have : F - 2 - nor a - 1 - nand b = (F - 2 - nor a - 2 - nand b) + 1 := by omega
+        rw [this]; exact andLoop_stop cx _ _ _ (hT cx st)
+      refine ⟨.union op a' b', by simp only [dropSpans, ha2, hb2], ?_⟩
+      rw [ha1]
+      have hF : F - 1 - nor a = (F - 2 - nor a) + 1 := by omega
+      rw [hF, hT']
+      simp only [orLoop, hop, hb1, hstop, combineOr, nor]
+      congr 1
+      omega
+    exact ⟨fun hw => absurd hw.1 (by omega), fun hw => absurd hw.1 (by omega), he'⟩
+
+end levels
+
+/-! ### top level -/
+
+theorem sz_le_length : ∀ e : PExpr, sz e ≤ (printExpr e).length := by
+  intro e
+  induction e with
+  | set s =>
+    obtain ⟨c, r, h, _⟩ := printSet_head s
+    simp [sz, printExpr_set, h]
+  | not op e ih => rw [printExpr_not]; simp only [sz, List.length_append, List.length_cons, List.length_nil]; omega
+  | parens e ih => rw [printExpr_parens]; simp only [sz, List.length_append, List.length_cons, List.length_nil]; omega
+  | union op a b iha ihb => rw [printExpr_union]; simp only [sz, List.length_append, List.length_cons]; omega
+  | inter op a b iha ihb => rw [printExpr_inter]; simp only [sz, List.length_append, List.length_cons]; omega
+  | diff a b iha ihb => rw [printExpr_diff]; simp only [sz, List.length_append, List.length_cons]; omega
+
+theorem wf_mono (MOk : DefaultMatcher → Matcher → Prop) (l l' : Nat) (hl : l ≤ l') : ∀ e, wf MOk l e → wf MOk l' e := by
+  intro e h
+  cases e with
+  | set s => exact h
+  | not op e => exact h
+  | parens e => exact h
+  | inter op a b => exact ⟨by have := h.1; omega, h.2.1, h.2.2⟩
+  | diff a b => exact ⟨by have := h.1; omega, h.2.1, h.2.2⟩
+  | union op a b => exact ⟨by have := h.1; omega, h.2.1, h.2.2⟩
+
+/-- **the whole-expression round trip, at the level of `parseTop`** -/
+theorem parseTop_printed (MOk : DefaultMatcher → Matcher → Prop) (e : PExpr) (rv gv : List (List Char × Bool))
+    (hm : MatcherRT (mkCtx (printExpr e) rv gv) MOk) (hw : wf MOk 2 e) :
+    ∃ e', parseTop (mkCtx (printExpr e) rv gv) (printExpr e) = (some e', { rest := [], errs := [], needs := [] }) ∧
+      dropSpans e' = dropSpans e := by
+  have hlen := sz_le_length e
+  have hnl := nor_lt e
+  have hpe := (levels (mkCtx (printExpr e) rv gv) MOk hm e).2.2 hw
+  obtain ⟨e', h2, h1⟩ := hpe (fuelFor (printExpr e)) (printExpr e) [] { rest := printExpr e, errs := [], needs := [] }
+    (by simpa using skipWs_printExpr e []) noAndOp_nil (by simp only [fuelFor]; omega)
+  refine ⟨e', ?_, h2⟩
+  have hstop : orLoop (mkCtx (printExpr e) rv gv) (fuelFor (printExpr e) - 1 - nor e) (some e')
+      (St.withRest { rest := printExpr e, errs := [], needs := [] } []) = (some e', { rest := [], errs := [], needs := [] }) := by
+    have : fuelFor (printExpr e) - 1 - nor e = (fuelFor (printExpr e) - 2 - nor e) + 1 := by simp only [fuelFor]; omega
+    rw [this]; exact orLoop_stop _ _ _ _ (noOrOp_nil _ _)
+  have h1' : parseExpr (mkCtx (printExpr e) rv gv) (fuelFor (printExpr e)) { rest := printExpr e, errs := [], needs := [] } =
+      (some e', { rest := [], errs := [], needs := [] }) := by
+    have := h1; simp only [St.withRest] at this hstop; rw [this, hstop]
+  simp only [parseTop, h1']
+  simp [skipWs, St.withRest]
+
 end NextestModel.ExprRT
